@@ -179,7 +179,8 @@ _BUILTINS = {
     'ord': ord, 'chr': chr, 'int': int, 'str': str, 'bytes': bytes, 'bytearray': bytearray,
     'divmod': divmod, 'abs': abs, 'bool': bool, 'float': float, 'any': any, 'all': all,
     'reversed': lambda x: list(reversed(x)), 'enumerate': lambda *a, **k: list(enumerate(*a, **k)),
-    'zip': lambda *a: list(zip(*a)), 'isinstance': None, 'None': None, 'True': True, 'False': False,
+    'zip': lambda *a: list(zip(*a)), 'isinstance': isinstance, 'iter': iter, 'next': next,
+    'None': None, 'True': True, 'False': False, 'round': round, 'repr': repr, 'hex': hex,
     'namedtuple': collections.namedtuple,
     'ValueError': ValueError, 'TypeError': TypeError, 'KeyError': KeyError, 'IndexError': IndexError,
     'AttributeError': AttributeError, 'LookupError': LookupError, 'UnicodeError': UnicodeError,
@@ -191,9 +192,9 @@ _SAFE_METHODS = {
     str: {'lower', 'upper', 'find', 'index', 'count', 'startswith', 'endswith', 'join', 'split',
           'strip', 'rstrip', 'lstrip', 'format', 'encode', 'isdigit', 'rfind', 'replace'},
     bytes: {'find', 'index', 'count', 'lower', 'upper', 'startswith', 'endswith', 'decode', 'isdigit'},
-    bytearray: {'find', 'index', 'count'},
+    bytearray: {'find', 'index', 'count', 'extend', 'append', 'pop'},
     tuple: {'index', 'count'},
-    list: {'index', 'count'},
+    list: {'index', 'count', 'append', 'extend', 'pop', 'insert', 'remove', 'clear', 'sort', 'reverse', 'copy'},
     frozenset: {'union', 'intersection'},
     set: {'union', 'intersection'},
 }
